@@ -10,8 +10,11 @@
   Core Lean only.  Go's `int` is modelled as `Int` together with the two conversions the code
   performs on it: `uint64(k)` (`toU64`, reduction mod 2^64) and the two's-complement wrap of
   `int` arithmetic (`wrapInt`).  `uint64` values are `Nat` with explicit wrap (`Lattigo/Word.lean`).
-  `ring.BRed(x,y,p)` inside `ModExp` is modelled by its specification `x*y % p` (its word-level
-  correctness is property C01's business).
+  `ring.BRed(x,y,p)` inside `ModExp` is written here as its specification `x*y % p`; the driver ops
+  `galel`, `galels`, `modinv`, `dlog`, `ordertwo` do NOT execute this file but the definitions regenerated
+  from the Go source (`Gen/Galois.lean` via `Model/GaloisGen.lean`, with the word-level `Gen.BRed`), and
+  `Props/C11Gen.lean` proves the two equal for `NthRoot = 2^m`, `1 ≤ m ≤ 63`.  `automorphismNTTIndex`
+  (op `nttindex`) is executed from this file.  Theorems: `Props/C11.lean` §1, §4.
 -/
 import Lattigo.Word
 
